@@ -16,13 +16,14 @@ from ..core import *
 from ..logic import *
 from ..report import Obl, Rule
 from .. import build
+from . import gating
 from .c12 import linear
 
 PROP = 'C07'
 RULES = [
     Rule('C07.R1', 'event dispatch and interface wiring deliver each channel event to the matching realTime_* method with bytes in order', 16),
     Rule('C07.R2', 'data bytes consumed per status byte follow the SMF length table and are bounds-checked for exactly that length', 4),
-    Rule('C07.R3', 'track/channel gating dominates delivery; track-0 timing events are exempt', 5),
+    Rule('C07.R3', 'track/channel gating dominates delivery; track-0 timing events are exempt', 4),
     Rule('C07.R4', 'same-tick ordering buckets and a consistent note-state index', 3),
     Rule('C07.R5', 'reported length is the latest row time plus the one-second post-song delay', 2),
     Rule('C07.R6', 'the delay to the next row is converted with the tempo in force after the row\'s events were handled', 1),
@@ -172,19 +173,16 @@ def analyse(facts, tier):
         raise build.AnalysisBroken('C07.R2: only %d data-byte groups found in parseEvent' % len(groups))
 
     # ---- R3 gating
-    sd = single_defs(he.d)
     gates = []
-    for b, j, st in he.cfg.returns():
-        gf = guard_facts(he, b, st, sd)
-        txt = ' '.join(fact_str(f) for f in gf)
-        if 'm_trackSolo' in txt or 'm_trackDisable' in txt:
-            exempt = any(f[0] == 'or' and 'ST_TEMPOCHANGE' in fact_str(f) and 'ST_TIMESIGNATURE' in fact_str(f) and 'track' in fact_str(f) and 'm_smfFormat' in fact_str(f) for f in gf)
-            kind = 'solo' if ('m_trackSolo' in txt and 'track != m_trackSolo' in txt) else 'disabled'
-            gates.append((b, j, st, kind, exempt))
-    kinds = {g[3] for g in gates}
+    kinds = set()
+    for b, j, st, gf in gating.gating_returns(he):
+        exempt = gating.excluded(gf, gating.timing_event(he, E, 'ST_TEMPOCHANGE')) and gating.excluded(gf, gating.timing_event(he, E, 'ST_TIMESIGNATURE'))
+        ks_ = gating.gate_kinds(he, gf)
+        kinds |= ks_
+        gates.append((b, j, st, '/'.join(sorted(ks_)) or 'track', exempt))
     for b, j, st, kind, exempt in gates:
         obls.append(Obl('C07.R3', he.name, '%s-track gate exempts track-0 tempo/time-signature' % kind, st['loc'], 'discharged' if exempt else 'finding',
-                        why='return only when the event is not a track-0 timing event of a format < 2 file' if exempt else
+                        why='the guard of this return contradicts "track 0, format < 2, T_SPECIAL, tempo change / time signature"' if exempt else
                         'tempo / time-signature events of track 0 are dropped by the %s filter: event times no longer follow the tempo map' % kind))
     if kinds != {'solo', 'disabled'}:
         obls.append(Obl('C07.R3', he.name, 'solo and disabled-track gates', he.loc, 'finding', why='gating returns found: %s' % sorted(kinds)))
